@@ -15,7 +15,7 @@ gvars == <<lib, done>>
 
 Langs == {"c++", "c"}
 BoolOpts == {"F_CFI", "debug", "doxygen", "literalinclude", "show_splicer_comments", "wrap_c", "wrap_fortran", "wrap_python", "wrap_lua"}
-Init == /\ lib = [language |-> "c++", funcs |-> <<>>, class |-> FALSE, ns |-> FALSE,
+Init == /\ lib = [language |-> "c++", funcs |-> <<>>, class |-> FALSE, derived |-> FALSE, ns |-> FALSE,
                   opts |-> [F_CFI |-> FALSE, debug |-> TRUE, doxygen |-> TRUE, literalinclude |-> FALSE,
                             show_splicer_comments |-> TRUE, line |-> 72,
                             wrap_c |-> TRUE, wrap_python |-> FALSE, wrap_lua |-> FALSE, wrap_fortran |-> TRUE]]
@@ -45,7 +45,7 @@ AddFunction(res, ps) ==
   /\ ~done /\ Len(lib.funcs) < MaxFuncs
   /\ (lib.opts.wrap_lua => LuaList(ps)) /\ (lib.opts.wrap_python => PyList(ps))
   /\ ResOK(res) /\ \A i \in 1..Len(ps) : RowOK(ps[i])
-  /\ lib' = [lib EXCEPT !.funcs = Append(@, [kind |-> "plain", result |-> res, params |-> ps, ndef |-> 0])]
+  /\ lib' = [lib EXCEPT !.funcs = Append(@, [kind |-> "plain", result |-> res, params |-> ps, ndef |-> 0, tmpl |-> FALSE, gen |-> FALSE])]
   /\ UNCHANGED done
 \* trailing parameters passed by value may carry C++ default values
 AddDefaults(i, n) ==
@@ -60,7 +60,7 @@ AddDefaults(i, n) ==
 AddOverload(i, ps) ==
   /\ ~done /\ lib.language = "c++" /\ i \in 1..Len(lib.funcs) /\ Len(lib.funcs) < MaxFuncs
   /\ (lib.opts.wrap_lua => LuaList(ps)) /\ (lib.opts.wrap_python => PyList(ps))
-  /\ lib.funcs[i].kind = "plain" /\ lib.funcs[i].ndef = 0 /\ ps # lib.funcs[i].params
+  /\ lib.funcs[i].kind = "plain" /\ lib.funcs[i].ndef = 0 /\ ps # lib.funcs[i].params /\ ~lib.funcs[i].tmpl
   /\ \A j \in 1..Len(lib.funcs) : (lib.funcs[j].kind = "overload" /\ lib.funcs[j].of = i) => lib.funcs[j].params # ps
   \* Fortran resolves a generic name by the arguments' types, kinds and ranks only: keep every pair of
   \* specifics distinguishable by the number of arguments (arrays hide their size argument, so they stay out)
@@ -68,13 +68,29 @@ AddOverload(i, ps) ==
   /\ \A j \in 1..Len(lib.funcs) : (lib.funcs[j].kind = "overload" /\ lib.funcs[j].of = i) => Len(lib.funcs[j].params) # Len(ps)
   /\ \A k \in 1..Len(ps) : ps[k] \notin {"arr_in", "arr_n", "arr_out", "out_n"}
   /\ \A k \in 1..Len(lib.funcs[i].params) : lib.funcs[i].params[k] \notin {"arr_in", "arr_n", "arr_out", "out_n"}
-  /\ lib' = [lib EXCEPT !.funcs = Append(@, [kind |-> "overload", of |-> i, result |-> lib.funcs[i].result, params |-> ps, ndef |-> 0])]
+  /\ lib' = [lib EXCEPT !.funcs = Append(@, [kind |-> "overload", of |-> i, result |-> lib.funcs[i].result, params |-> ps, ndef |-> 0, tmpl |-> FALSE, gen |-> FALSE])]
   /\ UNCHANGED done
+\* a function template with its instantiations listed (docs/templates.rst): the first parameter passed as int
+\* becomes the template parameter, instantiated for int and double.  The corpus has no Lua wrapper of a template.
+NotOverloaded(i) == \A j \in 1..Len(lib.funcs) : lib.funcs[j].kind = "overload" => lib.funcs[j].of # i
+HasRow(i, rows) == \E k \in 1..Len(lib.funcs[i].params) : lib.funcs[i].params[k] \in rows
+NoTemplates == \A i \in 1..Len(lib.funcs) : ~lib.funcs[i].tmpl
+Templatize(i) ==
+  /\ ~done /\ lib.language = "c++" /\ ~lib.opts.wrap_lua /\ i \in 1..Len(lib.funcs)
+  /\ lib.funcs[i].kind = "plain" /\ NotOverloaded(i) /\ ~lib.funcs[i].tmpl /\ HasRow(i, {"int_v"})
+  /\ lib' = [lib EXCEPT !.funcs[i].tmpl = TRUE] /\ UNCHANGED done
+\* fortran_generic (docs/fortran.rst "Generic Functions"): the first parameter passed as double or long may be
+\* given as another kind by the Fortran caller
+Genericize(i) ==
+  /\ ~done /\ i \in 1..Len(lib.funcs) /\ ~lib.funcs[i].gen /\ HasRow(i, {"double_v", "long_v"})
+  /\ lib' = [lib EXCEPT !.funcs[i].gen = TRUE] /\ UNCHANGED done
+\* single inheritance (docs/struct.rst "Object-oriented C", classes.yaml): a class derived from the library's class
+AddDerived == /\ ~done /\ lib.class /\ ~lib.derived /\ lib' = [lib EXCEPT !.derived = TRUE] /\ UNCHANGED done
 AddClass == /\ ~done /\ lib.language = "c++" /\ ~lib.class /\ lib' = [lib EXCEPT !.class = TRUE] /\ UNCHANGED done
 UseNamespace == /\ ~done /\ lib.language = "c++" /\ ~lib.ns /\ lib' = [lib EXCEPT !.ns = TRUE] /\ UNCHANGED done
 \* docs/lua.rst and the Lua inputs of the corpus cover arguments passed by value and std::string
 \* references only: the Lua wrapper is selected for such libraries only
-SetOption(k, v) == /\ ~done /\ ((k = "wrap_lua" /\ v = TRUE) => LuaOK) /\ ((k = "wrap_python" /\ v = TRUE) => PyOK)
+SetOption(k, v) == /\ ~done /\ ((k = "wrap_lua" /\ v = TRUE) => (LuaOK /\ NoTemplates)) /\ ((k = "wrap_python" /\ v = TRUE) => PyOK)
                    /\ lib' = [lib EXCEPT !.opts[k] = v] /\ UNCHANGED done
 \* the Fortran wrapper calls the C wrapper; at least one wrapper is selected
 Finish == /\ ~done /\ lib.funcs # <<>> /\ done' = TRUE
@@ -91,7 +107,8 @@ Build ==
   \/ \E res \in ResultRows, ps \in AllParamLists : AddFunction(res, ps)
   \/ \E i \in 1..MaxFuncs, n \in 1..2 : AddDefaults(i, n)
   \/ \E i \in 1..MaxFuncs, ps \in AllParamLists : AddOverload(i, ps)
-  \/ AddClass \/ UseNamespace
+  \/ AddClass \/ UseNamespace \/ AddDerived
+  \/ \E i \in 1..MaxFuncs : Templatize(i) \/ Genericize(i)
   \/ \E k \in BoolOpts : \E v \in BOOLEAN : SetOption(k, v)
   \/ \E v \in {40, 72, 132} : SetOption("line", v)
   \/ Finish
@@ -99,13 +116,16 @@ Build ==
 \* The same steps grouped by kind.  Simulation picks a successor state uniformly; choosing the kind of
 \* step first keeps the rare steps (options, language, class) as likely as the thousands of AddFunction
 \* instances.  Reachable descriptions are the same as under Build.
-Kinds == {"lang", "func", "func2", "func3", "defaults", "overload", "class", "ns", "opt", "opt2", "line", "finish"}
+Kinds == {"lang", "func", "func2", "func3", "defaults", "overload", "template", "generic", "class", "derived", "ns", "opt", "opt2", "line", "finish"}
 Do(k) ==
   CASE k = "lang" -> \E l \in Langs : SetLanguage(l)
     [] k \in {"func", "func2", "func3"} -> \E res \in ResultRows, ps \in AllParamLists : AddFunction(res, ps)
     [] k = "defaults" -> \E i \in 1..MaxFuncs, n \in 1..2 : AddDefaults(i, n)
     [] k = "overload" -> \E i \in 1..MaxFuncs, ps \in AllParamLists : AddOverload(i, ps)
     [] k = "class" -> AddClass
+    [] k = "derived" -> AddDerived
+    [] k = "template" -> \E i \in 1..MaxFuncs : Templatize(i)
+    [] k = "generic" -> \E i \in 1..MaxFuncs : Genericize(i)
     [] k = "ns" -> UseNamespace
     [] k \in {"opt", "opt2"} -> \E o \in BoolOpts : SetOption(o, ~lib.opts[o])
     [] k = "line" -> \E v \in {40, 72, 132} \ {lib.opts.line} : SetOption("line", v)
@@ -120,5 +140,6 @@ Spec == Init /\ [][Next]_<<lib, done, kind>>
 TypeOK == /\ Len(lib.funcs) <= MaxFuncs
           /\ (lib.opts.wrap_lua => LuaOK) /\ (lib.opts.wrap_python => PyOK)
           /\ \A i \in 1..Len(lib.funcs) : lib.funcs[i].ndef <= Len(lib.funcs[i].params)
-          /\ (lib.language = "c" => (~lib.class /\ ~lib.ns /\ \A i \in 1..Len(lib.funcs) : lib.funcs[i].kind = "plain" /\ lib.funcs[i].ndef = 0))
+          /\ (lib.language = "c" => (~lib.class /\ ~lib.ns /\ \A i \in 1..Len(lib.funcs) : lib.funcs[i].kind = "plain" /\ lib.funcs[i].ndef = 0 /\ ~lib.funcs[i].tmpl))
+          /\ (lib.derived => lib.class) /\ (lib.opts.wrap_lua => NoTemplates)
 =============================================================================
